@@ -43,6 +43,7 @@ Pool == <<
   <<0, TOp("piecewise", <<x, B("Lt", x, y), y, TT>>)>>,
   <<15, Iv(TInt(0), TInt(1), 0, 0)>>, <<15, TOp("union", <<Iv(TInt(0), TRat(1, 2), 0, 0), Iv(TRat(1, 2), TInt(1), 0, 0)>>)>>,
   <<0, Iv(TInt(0), TInt(1), 1, 0)>>, <<0, Iv(TInt(0), TInt(1), 0, 1)>>, <<0, Iv(TInt(0), TInt(1), 1, 1)>>,
+  <<0, Iv(TInf(-1), TInt(1), 1, 0)>>, <<0, Iv(TInt(0), TInf(1), 0, 1)>>, <<0, Iv(TInf(-1), TInf(1), 1, 1)>>, <<0, Iv(TRat(1, 2), TInt(2), 0, 0)>>,
   <<16, TOp("finiteset", <<TInt(1), TInt(2)>>)>>, <<16, TOp("finiteset", <<TInt(2), TInt(1)>>)>>,
   <<16, TOp("union", <<TOp("finiteset", <<TInt(1)>>), TOp("finiteset", <<TInt(2)>>)>>)>>,
   <<0, TOp("finiteset", <<x, y>>)>>, <<0, N0("EmptySet")>>, <<0, N0("Reals")>>, <<0, N0("Integers")>>, <<0, N0("Rationals")>>,
@@ -57,8 +58,43 @@ Pool == <<
 
 Recipes == [i \in 1..Len(Pool) |-> Pool[i][2]]
 Groups == [i \in 1..Len(Pool) |-> Pool[i][1]]
-Cases == << [op |-> "order", ts |-> Recipes, groups |-> Groups, perms |-> 8, seed |-> 1] >>
-ASSUME PrintT(<<"objects", Len(Pool)>>)
+
+\* ---- siblings: every object obtained from a pool object by ONE small change anywhere inside
+\* it (a literal bumped or negated, a symbol renamed, an open/closed flag toggled, two
+\* operands swapped, an operand dropped).  Such near-duplicates are where an __eq__, __hash__
+\* or compare() that ignores or double-counts a field is exposed.
+RECURSIVE Mutate(_), MutChild(_, _)
+Leaf(t) ==
+    CASE t.k = "Int" -> {TInt(t.n + 1), TInt(-t.n - 1)}
+      [] t.k = "Rat" -> {TRat(t.n + t.d, t.d), TRat(-t.n, t.d), TRat(t.n, t.d + 1)}
+      [] t.k = "Sym" -> {TSym(IF t.s = "x" THEN "y" ELSE "x"), TSym("z")}
+      [] t.k = "Const" -> {TConst(IF t.s = "pi" THEN "E" ELSE "pi")}
+      [] t.k = "Inf" -> {TInf(-1 * t.a[1].n), TInf(0)}
+      [] t.k = "fn" -> {T("fn", t.a, IF t.s = "f" THEN "g" ELSE "f", 0, 0)}
+      [] t.k = "interval" -> {T("interval", t.a, "", 1 - t.n, t.d), T("interval", t.a, "", t.n, 1 - t.d)}
+      [] t.k = "True" -> {FF}
+      [] t.k = "False" -> {TT}
+      [] OTHER -> {}
+MutChild(t, i) == {[t EXCEPT !.a = [t.a EXCEPT ![i] = m]] : m \in Mutate(t.a[i])}
+Mutate(t) ==
+    IF t.k \in {"Dbl", "CDbl"} THEN {}
+    ELSE Leaf(t)
+         \cup UNION {MutChild(t, i) : i \in 1..Len(t.a)}
+         \cup (IF Len(t.a) >= 2 /\ t.k \notin {"Complex", "Rat"}
+               THEN {[t EXCEPT !.a = [j \in 1..Len(t.a) |-> IF j = 1 THEN t.a[2] ELSE IF j = 2 THEN t.a[1] ELSE t.a[j]]]} ELSE {})
+         \cup (IF Len(t.a) >= 3 /\ t.k \in {"add", "mul", "addv", "mulv", "max", "min", "finiteset", "and", "or", "xor", "fn", "union"}
+               THEN {[t EXCEPT !.a = SubSeq(t.a, 1, Len(t.a) - 1)]} ELSE {})
+         \cup (IF t.k = "Complex" THEN {TComplex(t.a[1], m) : m \in Leaf(t.a[2])} \cup {TComplex(m, t.a[2]) : m \in Leaf(t.a[1])} ELSE {})
+
+\* families: consecutive pool objects with all their siblings, one batch each
+Chunk == 5
+NChunks == (Len(Pool) + Chunk - 1) \div Chunk
+Family(c) == LET idx == {i \in 1..Len(Pool) : (i - 1) \div Chunk = c - 1}
+                 objs == UNION {{Pool[i][2]} \cup Mutate(Pool[i][2]) : i \in idx}
+             IN SetToSeq(objs)
+FamilyCases == {[op |-> "order", ts |-> Family(c), groups |-> [i \in 1..Len(Family(c)) |-> 0], perms |-> 4, seed |-> c] : c \in 1..NChunks}
+Cases == << [op |-> "order", ts |-> Recipes, groups |-> Groups, perms |-> 8, seed |-> 1] >> \o SetToSeq(FamilyCases)
+ASSUME PrintT(<<"objects", Len(Pool), "families", NChunks, [c \in 1..NChunks |-> Len(Family(c))]>>)
 ASSUME ndJsonSerialize(IOEnv.OUT, Cases)
 VARIABLE dummy
 Init == dummy = 0
